@@ -1261,3 +1261,55 @@ def rule_editors_pure(ctx):
         else:
             ctx.ok("LF.NO-MODULE-STATE", site, fi, fi.node, "writes no module-level state", nontrivial=False)
     ctx.floor("LF.NO-MODULE-STATE", 5)
+
+
+SI_MUTATORS = ("__delitem__", "__setitem__", "append", "insert", "set_item", "set_item_value", "pop", "remove", "extend", "__iadd__")
+
+
+def rule_no_swallow(ctx):
+    """LF.NO-SWALLOW: the list model an edit history is compared with raises for an edit it cannot do (position out of range,
+    unknown mnemonic).  Composite edits rely on that: replace_curve_item is delete + insert and has no bounds check of its own.
+    An editing method of LASFile / SectionItems therefore never catches the lookup error of the collection primitive it calls
+    and carries on (log / pass / return) - a handler that re-raises or retries the edit another way is not a swallow."""
+    p = ctx.p
+    n = 0
+    broad = {"IndexError", "KeyError", "LookupError", "Exception", "BaseException", "ValueError"}
+
+    def touches_collection(nodes):
+        for s in nodes:
+            for c in ast.walk(s):
+                if isinstance(c, ast.Call):
+                    f = ast.unparse(c.func)
+                    if f.startswith(("self.", "list.", "super(")) and not f.startswith("self.logger"):
+                        return c
+                if isinstance(c, (ast.Delete,)) or (isinstance(c, ast.Subscript) and isinstance(c.ctx, (ast.Store, ast.Del))
+                                                     and ast.unparse(c.value).startswith("self")):
+                    return c
+        return None
+
+    for q, names in ((LF, MUTATORS), ("las_items.SectionItems", SI_MUTATORS)):
+        cls = p.cls(q)
+        for m in names:
+            fi = cls.methods.get(m)
+            if fi is None:
+                continue
+            n += 1
+            bad = None
+            for t in walk_shallow(fi.node):
+                if not isinstance(t, ast.Try) or touches_collection(t.body) is None:
+                    continue
+                for h in t.handlers:
+                    types = [h.type] if h.type is not None and not isinstance(h.type, ast.Tuple) else (h.type.elts if h.type is not None else [])
+                    caught = {ast.unparse(x).split(".")[-1] for x in types} if h.type is not None else {"BaseException"}
+                    if not (caught & broad):
+                        continue
+                    if any(isinstance(x, ast.Raise) for s in h.body for x in ast.walk(s)) or touches_collection(h.body) is not None:
+                        continue
+                    bad = (t, h, sorted(caught & broad))
+            ctx.check(bad is None, "LF.NO-SWALLOW", "%s.%s#errors" % (q, m), fi, bad[1] if bad else fi.node,
+                      "%s lets the lookup errors of the collection primitives it calls propagate" % m,
+                      bad and ("%s catches %s raised by `%s` and carries on without re-raising or retrying: an edit the list model "
+                               "rejects (position out of range, unknown mnemonic) is silently skipped, and composite edits that rely "
+                               "on the raise as their bounds check (replace_curve_item = delete + insert) then change the collection"
+                               % (m, "/".join(bad[2]), unparse(touches_collection(bad[0].body)))))
+    ctx.floor("LF.NO-SWALLOW", 10)
